@@ -1,9 +1,13 @@
 /-
-  Props/C19.lean — C19 (partial): the part of HTML export that is logic a model can carry.
-  Model: PM/Dom.lean (`html.escape`, `Element.__str__`, `render_spec`, the active-mark stack of
+  Props/C19.lean — C19 (partial): the part of HTML export and import that is logic a model can carry.
+  Export — model PM/Dom.lean (`html.escape`, `Element.__str__`, `render_spec`, the active-mark stack of
   `serialize_fragment`), tied on every run by exact comparison of the serialised HTML of generated
-  documents.  Termination and crash-freedom of HTML *import* (lxml, cssselect, `re`, the placement
-  heuristics) are outside the model and decided by search only.  Helper lemmas: Proofs/Dom.lean.
+  documents.  Helper lemmas: Proofs/Dom.lean.
+  Import — models PM/FromDom.lean (`matches_context`, the placement core of `ParseContext`) and
+  PM/DomWalk.lean (the DOM walk of `DOMParser.parse` / `parse_slice` over an abstract DOM that carries the
+  answers of lxml / cssselect / `re` / rule callbacks as an oracle), tied by whole parses.  lxml's own parsing,
+  selector matching and the callbacks stay outside.  Helper lemmas: Proofs/FromDom.lean, Proofs/Placement*.lean,
+  Proofs/DomWalk.lean.
 -/
 import PM.Dom
 import PM.FromDom
@@ -12,6 +16,10 @@ import Proofs.FromDom
 import Proofs.Placement
 import Proofs.PlacementValid
 import Proofs.PlacementMarks
+import PM.DomWalk
+import Proofs.DomWalk
+import Proofs.PlacementNoInternal
+import Proofs.DomWalkSafe
 namespace PM.C19
 open PM.Dom
 
@@ -483,6 +491,290 @@ theorem placement_finish_valid (S : Schema) (wsPre : TypeId → Bool) (hdet : De
     (placement_finish_valid_partial S wsPre hdet hts hleaf pw events hev st doc rest hrun hfin)
     (placement_finish_marks S wsPre false pw false events hevm st doc rest hrun hfin)
 
+/-! ## Import side, part C: the DOM walk (PM/DomWalk.lean, tied by whole parses: events + document)
+
+  `DomWalk.parse P rootTag kids` is the model of one `DOMParser.parse(dom)`: `kids` is the abstract DOM the
+  walk sees (after the `lxmltext` preprocessing) with the oracle annotations — every answer of lxml /
+  cssselect / `re` / rule callbacks the walk consumes —, `P` the parser's rules.  The walk is a total
+  function (its recursion is well-founded: DOM weight, then rules left for `consuming: False` re-matching);
+  it drives the placement core through `emit` and logs every call.
+
+  Outcomes of `parse`: a document, `.error .valueError`, `.error .internal`.
+  * `.valueError`: a rule with `skip: True` fires (`get_node_type(True)`); a node / mark rule fires whose
+    `attrs` lack a required attribute (`NodeType.create` / `MarkType.create`); a node rule names the text type.
+  * `.internal`: a rule fires that names an unknown node / mark type or a style rule without mark (KeyError);
+    a `get_attrs` callback raises; a text node without string (`<lxmltext></lxmltext>` in the source:
+    TypeError in `re`); a content expression that cannot be filled (AttributeError on `None`, inside the core).
+-/
+
+open PM.FromDom PM.DomWalk in
+/-- what `parse_valid` asks of the nodes a `get_content` callback returns: valid content and, below the node
+    itself, valid marks (its own marks are recomputed by `insert_node`) -/
+def givenNodeOk (S : Schema) (n : Node) : Bool := contentOk S n && kidsMarksOk S n
+
+open PM.FromDom PM.DomWalk in
+/-- **`parse` is total and is a run of the placement core.**  For every parser, every abstract DOM and every
+    oracle the walk terminates (it is a Lean function; `addAll` / `addDom` / `addElement` are defined by
+    well-founded recursion on the DOM weight and the number of rules left); it raises ValueError, dies with an
+    internal error (see `parse_no_internal` for when it cannot), or returns, and if it returns, then the
+    sequence of calls it logged, replayed from the initial `ParseContext`, gives exactly its final state —
+    so every theorem about *all* event sequences (`placement_*`) speaks about every real parse. -/
+theorem parse_total (P : Parser) (rootTag : String) (kids : List DNode) :
+    parse P rootTag kids = .error .valueError ∨ parse P rootTag kids = .error .internal ∨
+    (∃ w doc, parseW P rootTag kids = .ok (w, doc) ∧ parse P rootTag kids = .ok doc ∧
+      PState.run P.S P.wsPre (PState.init P.S false .unset false) w.log = .ok w.st ∧
+      ∃ rest, w.st.finish P.S = .ok (some doc, rest)) := by
+  unfold parse
+  cases hp : parseW P rootTag kids with
+  | error e =>
+    -- the only failures are ValueError and the internal ones
+    have hne : e ≠ .failed := by
+      unfold parseW at hp
+      cases ha : addAll P rootTag kids false (walkInit P false .unset) with
+      | error e' => simp only [ha, Except.error.injEq] at hp; subst hp; exact addAll_nofail P rootTag kids _ _ ha
+      | ok w =>
+        simp only [ha] at hp
+        cases hf : w.st.finish P.S with
+        | error e' => simp only [hf, Except.error.injEq] at hp; subst hp; exact finish_nf P.S w.st _ hf
+        | ok r =>
+          obtain ⟨od, rest⟩ := r
+          cases od with
+          | none => simp only [hf, Except.error.injEq] at hp; subst hp; decide
+          | some d => simp [hf] at hp
+    cases e with
+    | failed => exact absurd rfl hne
+    | valueError => exact Or.inl rfl
+    | internal => exact Or.inr (Or.inl rfl)
+  | ok r =>
+    obtain ⟨w, doc⟩ := r
+    refine Or.inr (Or.inr ⟨w, doc, rfl, rfl, ?_⟩)
+    unfold parseW at hp
+    cases ha : addAll P rootTag kids false (walkInit P false .unset) with
+    | error e => simp [ha] at hp
+    | ok w' =>
+      simp only [ha] at hp
+      have hrep := addAll_replays P (fun _ => true) rootTag kids _ _ (listOk_lax kids) w' ha
+      cases hf : w'.st.finish P.S with
+      | error e => simp [hf] at hp
+      | ok r =>
+        obtain ⟨od, rest⟩ := r
+        cases od with
+        | none => simp [hf] at hp
+        | some d =>
+          simp only [hf, Except.ok.injEq, Prod.mk.injEq] at hp
+          obtain ⟨rfl, rfl⟩ := hp
+          exact ⟨hrep.1, rest, hf⟩
+
+open PM.FromDom PM.DomWalk in
+/-- **`parse` returns a schema-valid document** (`Node.check()` in full), for every parser (any rules), every
+    abstract DOM and every oracle: the side conditions `WalkOk` / `WalkMarksOk` of `placement_finish_valid`
+    are discharged for the event sequences the walk produces.  Hypotheses: the schema conditions of
+    `placement_finish_valid` (`Det`, `TextStable` — cannot be dropped, see there —, `LeafOk`), and the nodes
+    that `get_content` callbacks hand over are themselves valid (`givenNodeOk`; text and leaf nodes always
+    are, and without `get_content` rules the guard is `listOk_lax`-trivial) — a callback returning an invalid
+    node makes the real parser return an invalid document. -/
+theorem parse_valid (P : Parser) (hdet : Det P.S) (hts : TextStable P.S) (hleaf : LeafOk P.S)
+    (rootTag : String) (kids : List DNode) (hn : listOk false (givenNodeOk P.S) kids = true)
+    (doc : Node) (h : parse P rootTag kids = .ok doc) : P.S.checkNode doc = true := by
+  unfold parse parseW at h
+  cases ha : addAll P rootTag kids false (walkInit P false .unset) with
+  | error e => simp [ha, Except.map] at h
+  | ok w =>
+    simp only [ha] at h
+    obtain ⟨hrun, hev⟩ := addAll_replays P (givenNodeOk P.S) rootTag kids _ _ hn w ha
+    cases hf : w.st.finish P.S with
+    | error e => simp [hf, Except.map] at h
+    | ok r =>
+      obtain ⟨od, rest⟩ := r
+      cases od with
+      | none => simp [hf, Except.map] at h
+      | some d =>
+        simp only [hf, Except.map, Except.ok.injEq] at h
+        subst h
+        refine placement_finish_valid P.S P.wsPre hdet hts hleaf .unset w.log ?_ ?_ w.st d rest hrun hf
+        · intro e he
+          obtain ⟨o, hwe⟩ := hev e he
+          cases hwe with
+          | text s => rfl
+          | leaf t a hl => exact hleaf t hl
+          | given n hn' => simp only [givenNodeOk, Bool.and_eq_true] at hn'; exact hn'.1
+          | _ => trivial
+        · intro e he
+          obtain ⟨o, hwe⟩ := hev e he
+          cases hwe with
+          | text s => rfl
+          | leaf t a hl => rfl
+          | given n hn' => simp only [givenNodeOk, Bool.and_eq_true] at hn'; exact hn'.2
+          | _ => trivial
+
+open PM.FromDom PM.DomWalk in
+/-- the side conditions of the placement theorems hold of every walk, `parse` and `parse_slice` alike (any
+    `is_open`, any `preserve_whitespace`): the log replays to the final state, and every logged call satisfies
+    `WalkOk` and `WalkMarksOk` — so `placement_match_coherent`, `placement_content_prefix`,
+    `placement_finish_marks` apply to every real walk without assumptions about it. -/
+theorem walk_events_admissible (P : Parser) (hleaf : LeafOk P.S) (isOpen : Bool) (pw : WS) (rootTag : String)
+    (kids : List DNode) (hn : listOk false (givenNodeOk P.S) kids = true) (w : WState)
+    (h : addAll P rootTag kids false (walkInit P isOpen pw) = .ok w) :
+    PState.run P.S P.wsPre (PState.init P.S isOpen pw false) w.log = .ok w.st ∧
+    (∀ e ∈ w.log, WalkOk P.S e) ∧ (∀ e ∈ w.log, WalkMarksOk P.S e) := by
+  obtain ⟨hrun, hev⟩ := addAll_replays P (givenNodeOk P.S) rootTag kids _ _ hn w h
+  refine ⟨hrun, ?_, ?_⟩
+  · intro e he
+    obtain ⟨o, hwe⟩ := hev e he
+    cases hwe with
+    | text s => rfl
+    | leaf t a hl => exact hleaf t hl
+    | given n hn' => simp only [givenNodeOk, Bool.and_eq_true] at hn'; exact hn'.1
+    | _ => trivial
+  · intro e he
+    obtain ⟨o, hwe⟩ := hev e he
+    cases hwe with
+    | text s => rfl
+    | leaf t a hl => rfl
+    | given n hn' => simp only [givenNodeOk, Bool.and_eq_true] at hn'; exact hn'.2
+    | _ => trivial
+
+open PM.FromDom PM.DomWalk in
+/-- **`parse` never dies with an internal error** (KeyError / TypeError / AttributeError / IndexError /
+    RecursionError, a raising callback) — it returns a document or raises ValueError —, under the guards that
+    are really needed, all decidable and all evaluated on the tie's inputs by the driver:
+    * schema (`SchemaOk`, from `detB` and `fillOkB`): deterministic, well-formed automata in which every state
+      can be completed with generatable nodes and every generatable type can be created and filled.  Without
+      it `fill_before(…, True)` answers `None` and `NodeContext.finish` dies on it (content `a+ text`:
+      `<x><a></a></x>`);
+    * rules (`Parser.rulesOk`): node / mark names exist in the schema, style rules other than `ignore` /
+      `clear_mark` rules name a mark — else `schema.nodes[rule.node]` / `schema.marks[rule.mark]` raise KeyError
+      when the rule fires;
+    * DOM and oracle (`listOk true`): no text node lacks its string (a literal `<lxmltext></lxmltext>` in the
+      source: TypeError in `re`) and no `get_attrs` callback raises.
+    The remaining failure, ValueError, is real: a rule with `skip: True` fires, a rule's attributes lack a
+    required attribute (`<a>` without `href` under a rule `a` with no `get_attrs`), a node rule names `text`. -/
+theorem parse_no_internal (P : Parser) (hS : SchemaOk P.S) (hr : P.rulesOk = true) (rootTag : String)
+    (kids : List DNode) (hk : listOk true (fun _ => true) kids = true) :
+    parse P rootTag kids ≠ .error .internal := by
+  unfold parse parseW
+  have hsafe := addAll_safe P (fun _ => true) hS hr rootTag kids hk false .unset
+  cases ha : addAll P rootTag kids false (walkInit P false .unset) with
+  | error e => rw [ha] at hsafe; simpa [Except.map, Safe] using hsafe
+  | ok w =>
+    rw [ha] at hsafe
+    dsimp only
+    have hfin := finish_safe P.S hS w.st hsafe
+    cases hf : w.st.finish P.S with
+    | error e => rw [hf] at hfin; simpa [Except.map, Safe] using hfin
+    | ok r =>
+      obtain ⟨od, rest⟩ := r
+      cases od with
+      | some d => simp [Except.map]
+      | none =>
+        -- unreachable: the root context of `parse` keeps its type (coherence of the stack)
+        exfalso
+        have hrep := addAll_replays P (fun _ => true) rootTag kids _ _ (listOk_lax kids) w ha
+        have hc := run_spec P.S (fun _ => True) (fun _ _ _ _ _ _ => trivial) P.wsPre (fun t => hS.det t 0) w.log _ w.st
+          (init_coh P.S _ .unset false) (fun e _ => by cases e <;> simp [EventOk, FinishOk]) hrep.1
+        unfold PState.finish at hf
+        cases hce : ({ w.st with open_ := 0 } : PState).closeExtra P.S w.st.isOpen with
+        | error e => simp [hce] at hf
+        | ok st1 =>
+          simp only [hce] at hf
+          obtain ⟨c1, c2, _, _⟩ := closeExtra_spec P.S (fun _ => True) ({ w.st with open_ := 0 } : PState) st1 w.st.isOpen
+            (fun _ _ _ _ _ _ => trivial) hc (by show 0 < w.st.nodes.length; have := hsafe.lt; omega) hce
+          cases hh : st1.nodes.head? with
+          | none => simp [hh] at hf
+          | some root =>
+            simp only [hh] at hf
+            obtain ⟨t, q, ht, _⟩ := Coh_known P.S _ st1.nodes c1 root (List.mem_of_head? hh)
+            simp only [ht] at hf
+            cases hfn : root.finishNode P.S (st1.isOpen || st1.topOpen) t with
+            | error e => simp [hfn, Except.map] at hf
+            | ok n => simp [hfn, Except.map] at hf
+
+open PM.FromDom PM.DomWalk in
+/-- the same for the walk of `parse_slice` (and any `preserve_whitespace`): `add_all` and `finish` do not die
+    with an internal error -/
+theorem walk_no_internal (P : Parser) (hS : SchemaOk P.S) (hr : P.rulesOk = true) (rootTag : String)
+    (kids : List DNode) (hk : listOk true (fun _ => true) kids = true) (isOpen : Bool) (pw : WS) :
+    addAll P rootTag kids false (walkInit P isOpen pw) ≠ .error .internal ∧
+    ∀ w, addAll P rootTag kids false (walkInit P isOpen pw) = .ok w → w.st.finish P.S ≠ .error .internal := by
+  have hsafe := addAll_safe P (fun _ => true) hS hr rootTag kids hk isOpen pw
+  constructor
+  · cases ha : addAll P rootTag kids false (walkInit P isOpen pw) with
+    | error e => rw [ha] at hsafe; simpa [Safe] using hsafe
+    | ok w => simp
+  · intro w ha
+    rw [ha] at hsafe
+    have hfin := finish_safe P.S hS w.st hsafe
+    cases hf : w.st.finish P.S with
+    | error e => rw [hf] at hfin; simpa [Safe] using hfin
+    | ok r => simp
+
+open PM.FromDom PM.DomWalk in
+/-- **`match_tag` answers with the first applicable candidate**: among the rules whose selector and namespace
+    match the element (the oracle's `cands`, in rule order), the first one from `start` on whose `context` is
+    empty or matches the open ancestors and whose `get_attrs` does not answer `False`; `None` if there is none;
+    the callback's exception if that rule's `get_attrs` raises. -/
+theorem match_tag_first_applicable (P : Parser) (stack : List TypeId) (start : Nat) (cands : List (CandInfo × List DNode)) :
+    matchTag P stack cands start =
+      match cands.find? (fun c => applicableB P stack start c.1) with
+      | none => .ok none
+      | some (c, alt) => tagMatchOf P c alt :=
+  matchTag_eq_find P stack start cands
+
+open PM.FromDom PM.DomWalk in
+/-- **a rule with a `context` is applied exactly where the open ancestors match.**  Take a candidate `c` of an
+    element — a rule `r` with a non-empty `context` whose selector matches (oracle), not before `start`, not
+    rejected by its `get_attrs` —, with no applicable candidate before it (`pre`) and the candidates in rule
+    order.  Then `match_tag` answers with `r` **iff** the context expression denotes a suffix of the visible
+    ancestor stack (`matchesContext_spec`: some alternative's items match, anchored at the innermost open
+    node); and if it does not, `match_tag` behaves as if the candidate were not there.  In the walk the stack
+    is `WState.stack` = `visibleStack none is_open (types of self.nodes) self.open` at the moment
+    `add_element` runs. -/
+theorem context_rules_apply_exactly (P : Parser) (stack : List TypeId) (start : Nat)
+    (pre post : List (CandInfo × List DNode)) (c : CandInfo) (alt : List DNode) (r : TagRule) (a : Option Attrs)
+    (hr : P.tags[c.idx]? = some r) (hstart : start ≤ c.idx) (hga : c.ga.resolve r.attrs = .use a)
+    (hpre : ∀ x ∈ pre, applicableB P stack start x.1 = false) (hpost : ∀ x ∈ post, c.idx < x.1.idx)
+    (hctx : r.context ≠ []) :
+    (matchTag P stack (pre ++ (c, alt) :: post) start = .ok (some ⟨c.idx, r, a, c, alt⟩) ↔
+      ∃ al ∈ alternatives r.context, AltMatches (nameOk P.S P.G) (itemsOf al) stack) ∧
+    ((¬ ∃ al ∈ alternatives r.context, AltMatches (nameOk P.S P.G) (itemsOf al) stack) →
+      matchTag P stack (pre ++ (c, alt) :: post) start = matchTag P stack post start) := by
+  have hfind : (pre ++ (c, alt) :: post).find? (fun x => applicableB P stack start x.1) =
+      if applicableB P stack start c then some (c, alt) else post.find? (fun x => applicableB P stack start x.1) := by
+    rw [List.find?_append]
+    have : pre.find? (fun x => applicableB P stack start x.1) = none := by
+      rw [List.find?_eq_none]; intro x hx; simp [hpre x hx]
+    rw [this]
+    simp only [Option.none_or, List.find?_cons]
+    cases applicableB P stack start c <;> rfl
+  have happ : applicableB P stack start c = matchesContext P.S P.G stack r.context := by
+    have hne : r.context.isEmpty = false := by cases hc : r.context with
+      | nil => exact absurd hc hctx
+      | cons _ _ => rfl
+    simp [applicableB, hr, hga, hstart, contextOk, hne]
+  rw [← matchesContext_spec]
+  rw [matchTag_eq_find, hfind, happ]
+  cases hm : matchesContext P.S P.G stack r.context with
+  | true =>
+    simp only [if_true, tagMatchOf, hr, hga, true_iff]
+    exact ⟨trivial, fun h => absurd trivial h⟩
+  | false =>
+    simp only [Bool.false_eq_true, if_false, iff_false, not_false_eq_true, forall_const]
+    rw [← matchTag_eq_find]
+    refine ⟨?_, rfl⟩
+    intro h
+    have := (matchTag_some P stack post start _ h).2.2.1
+    exact absurd (hpost _ this) (Nat.lt_irrefl _)
+
+open PM.DomWalk in
+/-- **`schema_rules` orders the collected rules by priority, stably**: the result is a permutation of the
+    `parseDOM` entries (all marks' first, then all nodes', in spec order) with non-increasing priority
+    (missing = 50), and entries of equal priority keep their collection order — so a mark's rule beats a
+    node's rule of the same priority, and within one spec the earlier entry wins. -/
+theorem schema_rules_order (specs : List RuleSpec) :
+    (schemaRules specs).Pairwise (fun a b => b.prio ≤ a.prio) ∧ (schemaRules specs).Perm specs ∧
+    ∀ p, (schemaRules specs).filter (fun x => x.prio == p) = specs.filter (fun x => x.prio == p) :=
+  schemaRules_spec specs
+
 section Examples
 open PM.FromDom
 -- how expressions are read
@@ -520,6 +812,34 @@ example : ((PState.run S3 (fun _ => false) (PState.init S3 false .unset false) [
     (fun st => st.nodes.map (fun c => (c.ty, c.mtch, c.content)))) =
     some [(some 0, some 1, []), (some 1, some 1, [.text [104, 105] []])] := by decide +kernel
 example : WalkOk S3 (.insertNode (.text [104, 105] [])) := rfl
+
+-- the DOM walk: a parser for S3 with `<p>` → p and a second, context-restricted rule `<p>` → p only inside a p
+open PM.DomWalk in
+private def P3 : Parser :=
+  { S := S3, G := fun _ => [], wsPre := fun _ => false,
+    tags := [{ node := some (some 1), context := "p/".toList }, { node := some (some 1) }], styles := [] }
+open PM.DomWalk in
+private def domP : DNode :=
+  .elem "p" [] [(⟨0, .absent, .children, "", []⟩, []), (⟨1, .absent, .children, "", []⟩, [])] [.text (some [104, 105])]
+-- the guards of `parse_valid` / `parse_no_internal` hold of it
+open PM.DomWalk in
+example : listOk true (givenNodeOk S3) [domP] = true := by decide
+open PM.DomWalk in
+example : P3.rulesOk = true := by decide
+-- (`SchemaOk` = `detB` ∧ `fillOkB` is evaluated by the driver on every schema of the tie: the filling searches do not
+-- reduce in the kernel, so there is no `decide` instance here)
+-- at top level (ancestors: doc) the context rule does not apply, the plain one does; inside a p it does
+open PM.DomWalk in
+example : (matchTag P3 [0] [(⟨0, .absent, .children, "", []⟩, []), (⟨1, .absent, .children, "", []⟩, [])] 0).toOption.map
+    (·.map (·.idx)) = some (some 1) := by decide
+open PM.DomWalk in
+example : (matchTag P3 [0, 1] [(⟨0, .absent, .children, "", []⟩, []), (⟨1, .absent, .children, "", []⟩, [])] 0).toOption.map
+    (·.map (·.idx)) = some (some 0) := by decide
+-- `normalize_list`: a list after a non-empty `li` moves into it; after an empty `li` it stays
+open PM.DomWalk in
+example : (normalizeList [.elem "li" [] [] [.other], .other, .elem "ul" [] [] []]).length = 2 := by decide
+open PM.DomWalk in
+example : (normalizeList [.elem "li" [] [] [], .other, .elem "ul" [] [] []]).length = 3 := by decide
 end Examples
 
 end PM.C19
